@@ -164,8 +164,16 @@ pub struct Outcome {
 static PANICS: AtomicUsize = AtomicUsize::new(0);
 
 pub fn silence_panics() {
-    std::panic::set_hook(Box::new(|_| {
+    let verbose = std::env::var("WCHECK_PANIC_VERBOSE").is_ok();
+    std::panic::set_hook(Box::new(move |info| {
         PANICS.fetch_add(1, Ordering::Relaxed);
+        let loc = info.location().map(|l| format!("{}:{}", l.file(), l.line())).unwrap_or_default();
+        // panics raised inside the harness itself (not inside walrus or its dependencies) are
+        // machinery failures and must be loud
+        let ours = loc.contains("wcheck/src") || loc.contains("wmodel/src") || loc.contains("wgen/src") || loc.contains("wdwarf/src");
+        if verbose || ours {
+            eprintln!("PANIC at {}: {}", loc, info);
+        }
     }));
 }
 pub fn panics_seen() -> usize {
